@@ -954,3 +954,129 @@ def run(ctx, rep):
     check_independent_draws(ctx, rep)
     # the density of the proposed state is the target at that state: a proposal / restore made through a view notifies the viewed parameter (its holders listen to it)
     c11.check_inplace(ctx, RuleProxy(rep, 'C15.R', 'in-place::'), rule='C11.W', only=lambda m, fn: m.name == 'torchtree.core.parameter')
+    check_no_state_dependent_redraws(ctx, rep)
+    check_loggers_keep_no_live_tensors(ctx, rep)
+
+
+REDRAW_POSITIVE = """
+class Op:
+    def _step(self):
+        shift = self._width * (torch.rand(1).item() - 0.5)
+        value = p[index2].item()
+        while not self._in_support(value + shift):
+            shift = self._width * (torch.rand(1).item() - 0.5)
+        p[index2] += shift
+        return torch.tensor(0.0)
+"""
+
+
+def state_dependent_redraws(fn):
+    """`while <test on the proposed value>: <draw again>` inside a proposal: the move is drawn from the proposal distribution CONDITIONED on passing the test, whose normalising
+    constant depends on the current state — q(x'|x) and q(x|x') then differ although the code returns the Hastings ratio of the unconditioned proposal"""
+    out = []
+    for lp in ast.walk(fn):
+        if isinstance(lp, ast.While):
+            draws = [c for c in ast.walk(lp) if isinstance(c, ast.Call) and (dotted_name(c.func) or '').split('.')[-1] in ('rand', 'randn', 'randint', 'sample', 'rsample', 'uniform', 'normal', 'random')]
+            if draws:
+                out.append((lp, draws[0]))
+    return out
+
+
+def check_no_state_dependent_redraws(ctx, rep):
+    t = ast.parse(REDRAW_POSITIVE).body[0].body[0]
+    if len(state_dependent_redraws(t)) != 1:
+        raise AnalysisError('C15.Q self-check: the redraw loop of the embedded example is not recognised')
+    n = 0
+    for sub in [ctx.classes.get(OPERATOR)] + ctx.classes.subclasses(OPERATOR, strict=True):
+        r = sub.resolve('_step')
+        if r is None or r[0] is not sub:
+            continue
+        n += 1
+        hits = state_dependent_redraws(r[1])
+        rep.check('C15.Q', f"{sub.qualname}._step::proposal-is-not-redrawn-until-it-fits", not hits, where(sub.module, hits[0][0]) if hits else where(sub.module, r[1]),
+                  {'loops': [norm_text(h[0].test)[:60] for h in hits]},
+                  f"{sub.name}._step draws again inside `while {norm_text(hits[0][0].test)[:50] if hits else ''}`: the proposal actually made is the proposal distribution restricted to "
+                  f"the values that pass the test, a restriction that depends on the current state; the Hastings ratio returned is that of the unrestricted proposal, so near the "
+                  f"boundary forward and backward moves are not balanced")
+    if n < 4:
+        rep.incomplete('C15.Q', 'redraws', '', f"only {n} operator _step methods found")
+
+
+ALIAS_POSITIVE = """
+class L:
+    def log(self, *args, **kwargs):
+        row = [sample]
+        for obj in self.objs:
+            row.append(obj.tensor.detach())
+        self._buffer.append(row)
+    def log_ok(self, *args, **kwargs):
+        row = [sample]
+        for obj in self.objs:
+            row.extend(obj.tensor.detach().cpu().tolist())
+        self._buffer.append(row)
+"""
+
+
+def aliases_kept_by_logger(fn):
+    """statements that put into the logger's own state a value that is still the live tensor of a parameter / the value a model returned (detach / cpu / reshape are views, not
+    copies): when the row is written later, an in-place proposal or a rejection has changed what it shows"""
+    COPY = ('tolist', 'item', 'clone', 'numpy', 'copy', 'float', 'str', 'format')
+
+    def alias(e):
+        """the expression is (a view of) a live tensor"""
+        if isinstance(e, ast.Call) and isinstance(e.func, ast.Attribute):
+            if e.func.attr in COPY:
+                return False
+            if e.func.attr in ('detach', 'cpu', 'reshape', 'view', 'squeeze', 'unsqueeze', 'sum', 'expand', 'flatten', 'contiguous', 'double', 'to'):
+                return alias(e.func.value) if e.func.attr != 'sum' else alias(e.func.value)
+            return False
+        if isinstance(e, ast.Attribute) and e.attr == 'tensor':
+            return True
+        if isinstance(e, ast.Name) and e.id in tensor_names:
+            return True
+        return False
+    tensor_names = set()
+    for st in ast.walk(fn):
+        if isinstance(st, ast.Assign) and len(st.targets) == 1 and isinstance(st.targets[0], ast.Name):
+            v = st.value
+            if (isinstance(v, ast.Call) and isinstance(v.func, ast.Name) and v.func.id == 'obj') or alias(v):
+                tensor_names.add(st.targets[0].id)
+    for _ in range(2):
+        for st in ast.walk(fn):
+            if isinstance(st, ast.Assign) and len(st.targets) == 1 and isinstance(st.targets[0], ast.Name) and alias(st.value):
+                tensor_names.add(st.targets[0].id)
+    lists = set()
+    for c in ast.walk(fn):
+        if isinstance(c, ast.Call) and isinstance(c.func, ast.Attribute) and c.func.attr in ('append', 'extend') and isinstance(c.func.value, ast.Name) and c.args and alias(c.args[0]):
+            lists.add(c.func.value.id)
+    out = []
+    for st in ast.walk(fn):
+        if isinstance(st, ast.Expr) and isinstance(st.value, ast.Call) and isinstance(st.value.func, ast.Attribute) and st.value.func.attr in ('append', 'extend', 'appendleft') \
+                and self_attr(st.value.func.value) and st.value.args:
+            a = st.value.args[0]
+            if (isinstance(a, ast.Name) and a.id in lists) or alias(a):
+                out.append(st)
+        if isinstance(st, ast.Assign) and any(self_attr(t) or (isinstance(t, ast.Subscript) and self_attr(t.value)) for t in st.targets):
+            if (isinstance(st.value, ast.Name) and st.value.id in lists) or alias(st.value):
+                out.append(st)
+    return out
+
+
+def check_loggers_keep_no_live_tensors(ctx, rep):
+    t = ast.parse(ALIAS_POSITIVE).body[0]
+    got = [len(aliases_kept_by_logger(f)) for f in t.body]
+    if got != [1, 0]:
+        raise AnalysisError(f"C15.R self-check: embedded logger examples give {got}")
+    m = ctx.prog.module('torchtree.core.logger')
+    n = 0
+    for cname, cnode in sorted(m.classes.items()):
+        for fn in cnode.body:
+            if isinstance(fn, ast.FunctionDef) and fn.name in ('log', '__call__', 'run'):
+                n += 1
+                hits = aliases_kept_by_logger(fn)
+                rep.check('C15.R', f"loggers::{cname}.{fn.name}::rows-are-materialised-when-they-are-logged", not hits, where(m, hits[0]) if hits else where(m, fn),
+                          {'kept': [norm_text(h)[:60] for h in hits]},
+                          f"{cname}.{fn.name} keeps `{norm_text(hits[0])[:60] if hits else ''}` — a view of the live tensor, not a copy: by the time the row is written an in-place proposal "
+                          f"(or its rejection) has changed it, and the logged density no longer belongs to the logged parameter values")
+    if n < 3:
+        rep.incomplete('C15.R', 'loggers', '', f"only {n} logging methods found")
